@@ -332,6 +332,25 @@ Theorem C19_fix_db_adds_missing : forall db c i,
 Proof. exact fix_db_adds_missing. Qed.
 Print Assumptions C19_fix_db_adds_missing.
 
+(** * Restart protocol of the hardfork configuration (chain/chainservice.go checkHardfork) *)
+From Verif Require Import Codec.Restart Codec.RestartProofs.
+
+(** "The hardfork version assigned to a height is stable across restarts": along ANY sequence
+    of accepted or refused starts (with any configurations of the binary's arity) interleaved
+    with chain growth, the running node reports for every produced height the version the
+    height was produced with. *)
+Theorem C19_restart_sequence_version_stable : forall (n : nat) evs,
+  Forall (event_len n) evs -> versions_stable (run true evs).
+Proof. exact restart_sequence_version_stable. Qed.
+Print Assumptions C19_restart_sequence_version_stable.
+
+(** The final WriteHardfork of checkHardfork is what makes it true: without it the stored
+    heights stay those of the first start and a reverted configuration is accepted later. *)
+Theorem C19_restart_without_writeback_refuted :
+  Forall (event_len 4) reschedule /\ ~ versions_stable (run false reschedule).
+Proof. exact restart_without_writeback_refuted. Qed.
+Print Assumptions C19_restart_without_writeback_refuted.
+
 (** * Event bloom filters (state/block.go AddReceipt, types/receipt.go BloomFilter) *)
 From Verif Require Import Codec.Bloom Codec.BloomProofs.
 
